@@ -2,11 +2,11 @@
 # regress_mutants.sh : every seeded change (own property) and every reverted fix (its properties) must still be caught.
 # Applies each patch to /repo in turn (tools/mutant_eval.py restores it); log in build/regress.log.  /repo must be clean.
 cd /verif
-: > build/regress.log
+: > build/regress${VERIF_SEED:+_seed$VERIF_SEED}.log
 for d in seeded/*/; do
   id=$(basename $d); p=${id%%_*}
   r=$(python3 tools/mutant_eval.py $d/patch.diff $p 2>&1 | grep "CAUGHT_BY")
-  echo "$id $r" >> build/regress.log
+  echo "$id $r" >> build/regress${VERIF_SEED:+_seed$VERIF_SEED}.log
 done
 declare -A REV=( [949cdab]="C02" [33630c1]="C02" [5be90c2]="C03" [9df4f49]="C03" [9fc4f1e]="C04" [68bb95d]="C09" [ea649b0]="C05" [b7da1b0]="C06"
   [b1205a2]="C07" [56b51df]="C13" [67dbc61]="C14" [98c99fb]="C14" [44d18fb]="C20" [c3db2b2]="C20" [c88b474]="C20" [d14f389]="C18" [574de74]="C20" )
@@ -14,6 +14,6 @@ mkdir -p build/revpatches
 for h in "${!REV[@]}"; do
   [ -s build/revpatches/rev_$h.diff ] || git -C /repo diff $h $h^ -- src > build/revpatches/rev_$h.diff
   r=$(python3 tools/mutant_eval.py build/revpatches/rev_$h.diff ${REV[$h]} 2>&1 | grep "CAUGHT_BY")
-  echo "revert_$h $r" >> build/regress.log
+  echo "revert_$h $r" >> build/regress${VERIF_SEED:+_seed$VERIF_SEED}.log
 done
-echo "regression done" >> build/regress.log
+echo "regression done" >> build/regress${VERIF_SEED:+_seed$VERIF_SEED}.log
